@@ -77,8 +77,8 @@ def translators(prop):
     return ok, log
 
 
-ALL_TRANSLATORS = ["tr_fact", "tr_tab", "tr_rules", "tr_prec", "tr_smart", "tr_naming", "tr_opts", "tr_jit", "tr_math", "tr_scope", "tr_c10", "tr_sites", "tr_quad", "tr_perm", "tr_lookup"]
-TRANSLATORS_FOR: dict[str, list[str]] = {"C01": ["tr_tab", "tr_fact", "tr_lookup"], "C02": ["tr_tab"], "C03": ["tr_perm", "tr_tab"], "C19": ["tr_rules"], "C16": ["tr_prec"], "C17": ["tr_smart"], "C04": ["tr_smart"], "C13": ["tr_naming"], "C20": ["tr_opts"], "C14": ["tr_jit"], "C15": ["tr_jit"], "C09": ["tr_math", "tr_fact"], "C11": ["tr_scope", "tr_quad"], "C10": ["tr_c10"], "C12": ["tr_sites"], "C18": ["tr_prec"]}
+ALL_TRANSLATORS = ["tr_fact", "tr_tab", "tr_rules", "tr_prec", "tr_smart", "tr_naming", "tr_opts", "tr_jit", "tr_math", "tr_scope", "tr_c10", "tr_sites", "tr_quad", "tr_perm", "tr_lookup", "tr_dtype"]
+TRANSLATORS_FOR: dict[str, list[str]] = {"C01": ["tr_tab", "tr_fact", "tr_lookup"], "C02": ["tr_tab"], "C03": ["tr_perm", "tr_tab"], "C19": ["tr_rules"], "C16": ["tr_prec"], "C17": ["tr_smart"], "C04": ["tr_smart"], "C13": ["tr_naming"], "C20": ["tr_opts"], "C14": ["tr_jit"], "C15": ["tr_jit"], "C09": ["tr_math", "tr_fact", "tr_dtype"], "C11": ["tr_scope", "tr_quad"], "C10": ["tr_c10"], "C12": ["tr_sites"], "C18": ["tr_prec"]}
 
 # what `make` must build for a property: only its own closure, so that a broken
 # obligation of one property never raises an alarm for another
@@ -86,11 +86,11 @@ KERNEL = ["theories/KernelProps.vo", "theories/Enc.vo", "theories/Num.vo"]
 PROP_TARGETS: dict[str, list[str]] = {
     "C03": KERNEL + ["theories/Perm.vo", "gen/PermGen.vo", "theories/Tab.vo", "gen/TabGen.vo"], "C05": KERNEL, "C07": KERNEL, "C08": KERNEL,
     "C19": KERNEL + ["theories/RuleIds.vo", "gen/Rules.vo"],
-    "C01": ["theories/Flatten.vo", "theories/Fact.vo", "theories/Tab.vo", "gen/TabGen.vo", "gen/FactGen.vo", "theories/Lookup.vo", "gen/LookupGen.vo"],
+    "C01": ["theories/Flatten.vo", "theories/Fact.vo", "theories/Tab.vo", "gen/TabGen.vo", "gen/FactGen.vo", "theories/Lookup.vo", "gen/LookupGen.vo", "theories/Indexing.vo"],
     "C02": ["theories/Flatten.vo", "theories/Affine.vo", "theories/Tab.vo", "gen/TabGen.vo"],
     "C04": ["theories/Flatten.vo", "theories/MIdx.vo", "gen/SmartGen.vo", "theories/Opt.vo"],
     "C06": ["theories/FormData.vo"],
-    "C09": ["theories/MathTab.vo", "gen/MathTabGen.vo", "theories/Fact.vo", "gen/FactGen.vo"],
+    "C09": ["theories/MathTab.vo", "gen/MathTabGen.vo", "theories/Fact.vo", "gen/FactGen.vo", "theories/Dtype.vo", "gen/DtypeGen.vo"],
     "C11": ["theories/Scopes.vo", "gen/ScopeGen.vo", "theories/QuadExact.vo", "gen/QuadGen.vo"],
     "C12": ["theories/Order.vo", "gen/SitesGen.vo"],
     "C18": ["theories/Fmt.vo", "gen/PrecGen.vo", "theories/PyFmt.vo"],
